@@ -96,9 +96,28 @@ def gen_case(rng):
             cons[k] = [ids, [[float(rand_value(rng)).hex()] for _ in ids]]
             pats[k] = 'values'
     mesh['constraints'] = cons
+    # in-place edits of the live constraint arrays after construction (attr.data[i, j] = v):
+    # the model sees the edited table
+    if cons and rng.random() < 0.6:
+        eff = {k: [list(v[0]), [list(r) for r in v[1]]] for k, v in cons.items()}
+        edits = []
+        for k in cons:
+            for _ in range(rng.choice([0, 1, 1, 2])):
+                r = rng.randrange(len(cons[k][0]))
+                c = rng.randrange(len(cons[k][1][r]))
+                if k in TABLE_KINDS and rng.random() < 0.4:
+                    v = NAN
+                else:
+                    v = rand_value(rng)
+                edits.append(['constraint', r, c, float(v).hex(), k])
+                eff[k][1][r][c] = float(v).hex()
+        if edits:
+            mesh['inplace'] = edits
+            mesh['constraints_eff'] = eff
     if sol:
         mesh['solution_type'] = sol
     mesh['meta'].update({'solution': sol or 'default', 'kinds': sorted(cons), 'patterns': pats,
+                         'inplace_edits': len(mesh.get('inplace') or []),
                          'only_solid': all(t in ('tet', 'tet2', 'hex', 'hex2', 'prism') for t in types)})
     return mesh
 
@@ -126,7 +145,7 @@ def coq_values(ids, rows, frac):
 
 
 def coq_cnt(mesh):
-    c = mesh['constraints']
+    c = mesh.get('constraints_eff') or mesh['constraints']
 
     def opt(k, f):
         return f'(Some {f(c[k][0], c[k][1], FRAC[k])})' if k in c else 'None'
@@ -178,7 +197,7 @@ def presc_of_dump(d):
 
 def presc_of_input(mesh):
     c = Counter()
-    for k, (ids, rows) in mesh['constraints'].items():
+    for k, (ids, rows) in (mesh.get('constraints_eff') or mesh['constraints']).items():
         for i, row in zip(ids, rows):
             for j, h in enumerate(row):
                 v = dec_or_none(h, FRAC[k])
@@ -350,6 +369,8 @@ def main(ctx):
             for i, m in enumerate(cases)]
     # every second case is written with overwrite=True over an earlier export of other conditions
     for i, j in enumerate(jobs):
+        if i % 3 == 0:
+            j['via_directory'] = True      # FEMData.read_directory instead of read_files
         cases[i]['meta']['over_existing'] = i % 2 == 1
         if i % 2 == 1:
             j['pre_mesh'] = cases[i - 1]
@@ -432,6 +453,8 @@ def main(ctx):
             mcase['pre_mesh'] = jobs[i]['pre_mesh']
         ctx.count('solution:' + meta['solution'])
         ctx.count('only_solid:%s' % meta['only_solid'])
+        ctx.count('inplace_edits:%d' % meta.get('inplace_edits', 0))
+        ctx.count('read_via:' + ('read_directory' if jobs[i].get('via_directory') else 'read_files'))
         for k in meta['kinds']:
             ctx.count('kind:' + k)
             ctx.count('pattern:' + meta['patterns'][k])
